@@ -10,7 +10,8 @@ import simgen
 
 TRUSTED_SIM = [
     "translator fragments Task (TaskState, Task.release/schedule/unschedule/start/step/finish/cancel translated "
-    "statement by statement) and Event (EventType)",
+    "statement by statement), Event (EventType) and TaskGraph (Task.is_ready_to_run: the machine's placement guard IS the "
+    "translated test; Proofs/SimP.v: is_ready_spec)",
     "the abstract machine Model/Sim.v is hand-written: each guard is a test the code performs at that call site; the tie is "
     "checked by feeding the implementation's call log of whole simulations (class-level wrappers installed by the harness, "
     "no source hooks) to the machine inside Coq and comparing the final task states, clock, counters and residents",
@@ -51,7 +52,7 @@ def nontrivial(run):
 
 def run_sim_property(ctx, props_files, monitor, what, deps=(), machine=True):
     ctx.fingerprint(simcommon.SIM_FILES)
-    ctx.translate(["Task", "Event"])
+    ctx.translate(["Task", "Event", "TaskGraph"])
     ok = True
     for pf in props_files:
         ok = ctx.build(pf, deps=["Model/Sim.v"] + list(deps)) and ok
